@@ -3072,7 +3072,9 @@ class Ac_Implied_Do(Base):
             # No "=" or it is "==" so no match.
             return None
         j = line[:i].rfind(",")
-        assert j != -1
+        if j == -1:
+            # No value list before the implied-do control.
+            return None
         s1 = repmap(line[:j].rstrip())
         s2 = repmap(line[j + 1 :].lstrip())
         return Ac_Value_List(s1), Ac_Implied_Do_Control(s2)
@@ -5687,7 +5689,9 @@ class Deallocate_Stmt(StmtBase):  # R635
         opts = None
         if i != -1:
             j = line[:i].rfind(",")
-            assert j != -1, repr((i, j, line))
+            if j == -1:
+                # A dealloc-opt without a preceding allocate-object.
+                return
             opts = Dealloc_Opt_List(repmap(line[j + 1 :].lstrip()))
             line = line[:j].rstrip()
         return Allocate_Object_List(repmap(line)), opts
